@@ -151,6 +151,27 @@ def ref_parse(text):
     return ("ok", attrs, env)
 
 
+def spec_checks(XSpec, x, text, exp):
+    V = []
+    _, attrs, env = exp
+    for k, val in attrs.items():
+        if k == "env":
+            continue
+        got = getattr(x, k, "<missing>")
+        if got != val or type(got) is not type(val):
+            V.append(v("spec-attribute-wrong", "attr", f"{text!r}: {k} -> {got!r}, expected {val!r}"))
+    if dict(x.env) != env and "env" not in attrs:
+        V.append(v("spec-env-wrong", "env", f"{text!r}: env {x.env!r}, expected {env!r}"))
+    if getattr(x, "surely_absent_name") is not None:
+        V.append(v("spec-absent-not-none", "attr", text))
+    if str(x) != text:
+        V.append(v("spec-str-differs", "str", f"{text!r} -> {str(x)!r}"))
+    y = XSpec(text)
+    if not (x == y) or (x != y) or hash(x) != hash(y) or x == XSpec(text + "//zz9"):
+        V.append(v("spec-eq-hash", "eq", text))
+    return V
+
+
 def check_specs(specs):
     V = []
     n = 0
@@ -174,22 +195,10 @@ def check_specs(specs):
             kind = "env" if exp[1].startswith("env:") else "plain"
             V.append(v("spec-duplicate-accepted", kind, f"{text!r}: repeated key {exp[1]!r} accepted"))
             continue
-        _, attrs, env = exp
-        for k, val in attrs.items():
-            if k == "env":
-                continue
-            got = getattr(x, k, "<missing>")
-            if got != val or type(got) is not type(val):
-                V.append(v("spec-attribute-wrong", "attr", f"{text!r}: {k} -> {got!r}, expected {val!r}"))
-        if dict(x.env) != env and "env" not in attrs:
-            V.append(v("spec-env-wrong", "env", f"{text!r}: env {x.env!r}, expected {env!r}"))
-        if getattr(x, "surely_absent_name") is not None:
-            V.append(v("spec-absent-not-none", "attr", text))
-        if str(x) != text:
-            V.append(v("spec-str-differs", "str", f"{text!r} -> {str(x)!r}"))
-        y = XSpec(text)
-        if not (x == y) or (x != y) or hash(x) != hash(y) or x == XSpec(text + "//zz9"):
-            V.append(v("spec-eq-hash", "eq", text))
+        try:
+            V += spec_checks(XSpec, x, text, exp)
+        except Exception as e:  # noqa: BLE001 - raised by the code under test while its attributes are inspected
+            V.append(v("spec-raised-other", f"{type(e).__name__};after-parse", f"{text!r}: {e!r}"))
     return V, n
 
 
